@@ -468,8 +468,8 @@ def r6(ctx):
 
 
 def r_enum(ctx):
-    from .common import enum_identity
-    enum_identity(ctx, "C01.R7", ('connection', 'server', 'client'))
+    from .common import repo_idioms
+    repo_idioms(ctx, "C01.R7", ('connection', 'server', 'client'))
 
 
 RULES = [("C01.R1", r1), ("C01.R2", r2), ("C01.R3", r3), ("C01.R4", r4), ("C01.R5", r5), ("C01.R6", r6), ("C01.R7", r_enum)]
